@@ -78,7 +78,7 @@ Print Assumptions combined_conversion_is_sequence.
 Theorem history_direct_partial : forall psat M rml rmg dens mm TK,
   0 < psat -> 0 < M -> 0 < rml -> 0 < rmg -> 0 < dens -> 0 < mm -> TK <> 0 ->
   forall (r0 : rs) (cp0 cl0 : list R) (cb : list bool) (a : adsorbate RNum), ads_full_at a TK psat M rml rmg ->
-  forall (T : R) (li pi : option cache) (ops : list op),
+  forall (T : R) (li pi : option (cache RNum)) (ops : list op),
   kelvin_of (r_k r0) T = TK ->
   let s0 := mk_state (r_p r0) (r_l r0) (r_m r0) (r_k r0) T a (mat_full dens mm) cp0 cl0 cb li pi in
   all_ok s0 ops /\
@@ -89,7 +89,7 @@ Print Assumptions history_direct_partial.
 Theorem history_back_restores_partial : forall psat M rml rmg dens mm TK,
   0 < psat -> 0 < M -> 0 < rml -> 0 < rmg -> 0 < dens -> 0 < mm -> TK <> 0 ->
   forall (r0 : rs) (cp0 cl0 : list R) (cb : list bool) (a : adsorbate RNum), ads_full_at a TK psat M rml rmg ->
-  forall (T : R) (li pi : option cache) (ops : list op),
+  forall (T : R) (li pi : option (cache RNum)) (ops : list op),
   kelvin_of (r_k r0) T = TK ->
   let s0 := mk_state (r_p r0) (r_l r0) (r_m r0) (r_k r0) T a (mat_full dens mm) cp0 cl0 cb li pi in
   let back := [OpP (r_p r0); OpM (r_m r0); OpL (r_l r0); OpT (r_k r0)] in
